@@ -42,6 +42,11 @@ def run(ctx):
     ctx.rule('R05.6', 'idle listings report every unexpired lookup result, whatever shard it came from (no dropping / '
                       'short-circuiting adaptor besides the expiry filter)')
     ctx.floor('R05.6', T.rule_observers(ctx, 'R05.6', parts=('idle',)), 8)
+    from props import C10, C06
+    ctx.rule('R05.7', 'a (candidate, track) pair is judged on its own whatever else shares its shard (postprocess per pair); '
+                      'the records of a call are read after that call\'s store updates (same steps as the batch sibling)')
+    C10.r6(ctx, 'R05.7')
+    ctx.floor('R05.7', C06.sibling(ctx, 'R05.7'), 6)
     inventory(ctx)
 
 
